@@ -1,7 +1,10 @@
 (* Property C17: the compiler's big-number arithmetic is exact.
    This file contains only the property theorems, each closed by [exact] of a lemma of
-   Proofs.v and followed by Print Assumptions. *)
-From C17 Require Import Model Proofs.
+   Proofs*.v and followed by Print Assumptions.
+   wf x: BINT_SIZE limbs, each in [0, 2^BINT_WORDBITS);  uval: unsigned value;  sval: two's
+   complement value;  all arithmetic is exact arithmetic reduced mod 2^BINT_BITS. *)
+From C17 Require Import Model Model2 Model3 Proofs ProofsLib ProofsArith ProofsBits ProofsConv ProofsShift
+  ProofsMisc ProofsDiv ProofsDiv2 ProofsPow.
 Local Open Scope Z_scope.
 
 Theorem C17_add_exact : forall x y, wf x -> wf y ->
@@ -14,6 +17,217 @@ Theorem C17_sub_exact : forall x y, wf x -> wf y ->
 Proof. exact sub_correct. Qed.
 Print Assumptions C17_sub_exact.
 
+Theorem C17_mul_exact : forall x y, wf x -> wf y ->
+  wf (bmul x y) /\ uval (bmul x y) = (uval x * uval y) mod 2 ^ BINT_BITS.
+Proof. exact mul_correct. Qed.
+Print Assumptions C17_mul_exact.
+
+Theorem C17_inc_exact : forall x, wf x -> wf (binc x) /\ uval (binc x) = (uval x + 1) mod 2 ^ BINT_BITS.
+Proof. exact inc_correct. Qed.
+Print Assumptions C17_inc_exact.
+
+Theorem C17_dec_exact : forall x, wf x -> wf (bdec x) /\ uval (bdec x) = (uval x - 1) mod 2 ^ BINT_BITS.
+Proof. exact dec_correct. Qed.
+Print Assumptions C17_dec_exact.
+
+Theorem C17_unm_exact : forall x, wf x -> wf (bunm x) /\ uval (bunm x) = (- uval x) mod 2 ^ BINT_BITS.
+Proof. exact unm_correct. Qed.
+Print Assumptions C17_unm_exact.
+
+Theorem C17_bnot_exact : forall x, wf x ->
+  wf (bnot x) /\ uval (bnot x) = 2 ^ BINT_BITS - 1 - uval x /\ uval (bnot x) = Z.lnot (uval x) mod 2 ^ BINT_BITS.
+Proof. exact bnot_correct. Qed.
+Print Assumptions C17_bnot_exact.
+
+Theorem C17_band_exact : forall x y, wf x -> wf y -> wf (band x y) /\ uval (band x y) = Z.land (uval x) (uval y).
+Proof. exact band_correct. Qed.
+Print Assumptions C17_band_exact.
+
+Theorem C17_bor_exact : forall x y, wf x -> wf y -> wf (bor x y) /\ uval (bor x y) = Z.lor (uval x) (uval y).
+Proof. exact bor_correct. Qed.
+Print Assumptions C17_bor_exact.
+
+Theorem C17_bxor_exact : forall x y, wf x -> wf y -> wf (bxor x y) /\ uval (bxor x y) = Z.lxor (uval x) (uval y).
+Proof. exact bxor_correct. Qed.
+Print Assumptions C17_bxor_exact.
+
 Theorem C17_eq_exact : forall x y, wf x -> wf y -> beq x y = true <-> uval x = uval y.
 Proof. exact eq_correct. Qed.
 Print Assumptions C17_eq_exact.
+
+Theorem C17_ult_exact : forall x y, wf x -> wf y -> ult x y = (uval x <? uval y).
+Proof. exact ult_correct. Qed.
+Print Assumptions C17_ult_exact.
+
+Theorem C17_ule_exact : forall x y, wf x -> wf y -> ule x y = (uval x <=? uval y).
+Proof. exact ule_correct. Qed.
+Print Assumptions C17_ule_exact.
+
+Theorem C17_lt_exact : forall x y, wf x -> wf y -> blt x y = (sval x <? sval y).
+Proof. exact lt_correct. Qed.
+Print Assumptions C17_lt_exact.
+
+Theorem C17_le_exact : forall x y, wf x -> wf y -> ble x y = (sval x <=? sval y).
+Proof. exact le_correct. Qed.
+Print Assumptions C17_le_exact.
+
+Theorem C17_isneg_exact : forall x, wf x -> isneg x = (sval x <? 0).
+Proof. exact isneg_correct. Qed.
+Print Assumptions C17_isneg_exact.
+
+Theorem C17_shlone_exact : forall x, wf x -> wf (shlone x) /\ uval (shlone x) = (2 * uval x) mod 2 ^ BINT_BITS.
+Proof. exact shlone_correct. Qed.
+Print Assumptions C17_shlone_exact.
+
+Theorem C17_shrone_exact : forall x, wf x -> wf (shrone x) /\ uval (shrone x) = uval x / 2.
+Proof. exact shrone_correct. Qed.
+Print Assumptions C17_shrone_exact.
+
+(* shifts by ANY Lua integer count (negative = other direction, |y| >= BITS and mininteger = 0);
+   Z.shiftl with a negative count is a right shift *)
+Theorem C17_shl_exact : forall x y, wf x -> in_i64 y ->
+  exists r, bshl x y = Some r /\ wf r /\ uval r = Z.shiftl (uval x) y mod 2 ^ BINT_BITS.
+Proof. exact shl_correct. Qed.
+Print Assumptions C17_shl_exact.
+
+Theorem C17_shr_exact : forall x y, wf x -> in_i64 y ->
+  exists r, bshr x y = Some r /\ wf r /\ uval r = Z.shiftr (uval x) y mod 2 ^ BINT_BITS.
+Proof. exact shr_correct. Qed.
+Print Assumptions C17_shr_exact.
+
+(* conversions from and to Lua integers; u64 = unsigned reading, wrap64 = two's complement wrap *)
+Theorem C17_fromuinteger_exact : forall i, in_i64 i -> wf (fromuinteger i) /\ uval (fromuinteger i) = u64 i.
+Proof. exact fromuinteger_correct. Qed.
+Print Assumptions C17_fromuinteger_exact.
+
+Theorem C17_frominteger_exact : forall i, in_i64 i ->
+  wf (frominteger i) /\ uval (frominteger i) = i mod 2 ^ BINT_BITS /\ sval (frominteger i) = i.
+Proof. exact frominteger_correct. Qed.
+Print Assumptions C17_frominteger_exact.
+
+Theorem C17_touinteger_exact : forall x, wf x -> touinteger x = wrap64 (uval x).
+Proof. exact touinteger_correct. Qed.
+Print Assumptions C17_touinteger_exact.
+
+Theorem C17_tointeger_exact : forall x, wf x -> tointeger x = wrap64 (sval x).
+Proof. exact tointeger_correct. Qed.
+Print Assumptions C17_tointeger_exact.
+
+Theorem C17_integer_roundtrip : forall i, in_i64 i ->
+  tointeger (frominteger i) = i /\ touinteger (fromuinteger i) = i.
+Proof. exact (fun i H => conj (tointeger_frominteger i H) (touinteger_fromuinteger i H)). Qed.
+Print Assumptions C17_integer_roundtrip.
+
+Theorem C17_bint_roundtrip : forall x, wf x -> in_i64 (sval x) -> frominteger (tointeger x) = x.
+Proof. exact frominteger_tointeger. Qed.
+Print Assumptions C17_bint_roundtrip.
+
+(* predicates, abs / max / min, bit-width wrapping *)
+Theorem C17_iszero_exact : forall x, wf x -> biszero x = (uval x =? 0).
+Proof. exact iszero_correct. Qed.
+Print Assumptions C17_iszero_exact.
+
+Theorem C17_isone_exact : forall x, wf x -> bisone x = (uval x =? 1).
+Proof. exact isone_correct. Qed.
+Print Assumptions C17_isone_exact.
+
+Theorem C17_isminusone_exact : forall x, wf x ->
+  bisminusone x = (uval x =? 2 ^ BINT_BITS - 1) /\ bisminusone x = (sval x =? -1).
+Proof. exact isminusone_correct. Qed.
+Print Assumptions C17_isminusone_exact.
+
+Theorem C17_parity_exact : forall x, wf x -> biseven x = (uval x mod 2 =? 0) /\ bisodd x = (uval x mod 2 =? 1).
+Proof. exact iseven_correct. Qed.
+Print Assumptions C17_parity_exact.
+
+Theorem C17_limits_exact :
+  (wf bint_mininteger /\ uval bint_mininteger = 2 ^ BINT_BITS / 2 /\ sval bint_mininteger = - (2 ^ BINT_BITS / 2)) /\
+  (wf bint_maxinteger /\ uval bint_maxinteger = 2 ^ BINT_BITS / 2 - 1).
+Proof. exact (conj mininteger_correct maxinteger_correct). Qed.
+Print Assumptions C17_limits_exact.
+
+Theorem C17_abs_exact : forall x, wf x -> wf (babs x) /\ uval (babs x) = Z.abs (sval x) mod 2 ^ BINT_BITS.
+Proof. exact abs_correct. Qed.
+Print Assumptions C17_abs_exact.
+
+Theorem C17_max_exact : forall x y, wf x -> wf y ->
+  wf (bmax x y) /\ sval (bmax x y) = Z.max (sval x) (sval y) /\ (bmax x y = x \/ bmax x y = y).
+Proof. exact max_correct. Qed.
+Print Assumptions C17_max_exact.
+
+Theorem C17_min_exact : forall x y, wf x -> wf y ->
+  wf (bmin x y) /\ sval (bmin x y) = Z.min (sval x) (sval y) /\ (bmin x y = x \/ bmin x y = y).
+Proof. exact min_correct. Qed.
+Print Assumptions C17_min_exact.
+
+Theorem C17_bwrap_exact : forall x y, wf x -> in_i64 y ->
+  exists r, bwrap x y = Some r /\ wf r /\ uval r = if y <=? 0 then 0 else uval x mod 2 ^ y.
+Proof. exact bwrap_correct. Qed.
+Print Assumptions C17_bwrap_exact.
+
+(* rotations: a rotation (count reduced mod BITS) only for |y| <= BITS; beyond, and for
+   mininteger, the unchanged code is not a rotation (known finding, replayed every run) *)
+Theorem C17_brol_partial : forall x y, wf x -> - BINT_BITS <= y <= BINT_BITS ->
+  exists r, brol x y = Some r /\ wf r /\ uval r = rotl (uval x) y.
+Proof. exact brol_partial. Qed.
+Print Assumptions C17_brol_partial.
+
+Theorem C17_bror_partial : forall x y, wf x -> - BINT_BITS <= y <= BINT_BITS ->
+  exists r, bror x y = Some r /\ wf r /\ uval r = rotl (uval x) (- y).
+Proof. exact bror_partial. Qed.
+Print Assumptions C17_bror_partial.
+
+Theorem C17_brol_refuted : ~ (forall x y, wf x -> in_i64 y ->
+  exists r, brol x y = Some r /\ wf r /\ uval r = rotl (uval x) y).
+Proof. exact brol_exact_refuted. Qed.
+Print Assumptions C17_brol_refuted.
+
+Theorem C17_bror_refuted : ~ (forall x y, wf x -> in_i64 y ->
+  exists r, bror x y = Some r /\ wf r /\ uval r = rotl (uval x) (- y)).
+Proof. exact bror_exact_refuted. Qed.
+Print Assumptions C17_bror_refuted.
+
+(* division *)
+Theorem C17_udivmod_exact : forall x y, wf x -> wf y ->
+  (uval y = 0 -> udivmod x y = Err EDivZero) /\
+  (uval y <> 0 -> exists q r, udivmod x y = Ok (q, r) /\ wf q /\ wf r /\
+                   uval q = uval x / uval y /\ uval r = uval x mod uval y).
+Proof. exact udivmod_correct. Qed.
+Print Assumptions C17_udivmod_exact.
+
+Theorem C17_tdivmod_exact : forall x y, wf x -> wf y ->
+  let sx := sval x in let sy := sval y in
+  (sx = - (2 ^ BINT_BITS / 2) /\ sy = -1 -> tdivmod x y = Err EDivOverflow) /\
+  (~ (sx = - (2 ^ BINT_BITS / 2) /\ sy = -1) -> sy = 0 -> tdivmod x y = Err EDivZero) /\
+  (~ (sx = - (2 ^ BINT_BITS / 2) /\ sy = -1) -> sy <> 0 ->
+     exists q r, tdivmod x y = Ok (q, r) /\ wf q /\ wf r /\ sval q = Z.quot sx sy /\ sval r = Z.rem sx sy).
+Proof. exact tdivmod_correct. Qed.
+Print Assumptions C17_tdivmod_exact.
+
+(* floor division: idivmod, x // y (bidiv) and x % y (bmod) *)
+Theorem C17_idivmod_exact : forall x y, wf x -> wf y ->
+  let sx := sval x in let sy := sval y in
+  (sy = 0 -> idivmod x y = Err EDivZero /\ bidiv x y = Err EDivZero /\ bmod x y = Err EDivZero) /\
+  (sy <> 0 -> exists q r, idivmod x y = Ok (q, r) /\ bidiv x y = Ok q /\ bmod x y = Ok r /\ wf q /\ wf r /\
+     uval q = (sx / sy) mod 2 ^ BINT_BITS /\ sval r = sx mod sy /\
+     (~ (sx = - (2 ^ BINT_BITS / 2) /\ sy = -1) -> sval q = sx / sy)).
+Proof. exact idivmod_correct. Qed.
+Print Assumptions C17_idivmod_exact.
+
+(* powers *)
+Theorem C17_ipow_exact : forall x y, wf x -> wf y ->
+  exists r, ipow x y = Ok r /\ wf r /\ uval r = (uval x ^ uval y) mod 2 ^ BINT_BITS.
+Proof. exact ipow_correct. Qed.
+Print Assumptions C17_ipow_exact.
+
+Theorem C17_upowmod_partial : forall x y m, wf x -> wf y -> wf m ->
+  (uval m = 0 -> upowmod x y m = Err EDivZero) /\
+  (uval m <> 0 -> uval m * uval m <= 2 ^ BINT_BITS ->
+     exists r, upowmod x y m = Ok r /\ wf r /\ uval r = (uval x ^ uval y) mod uval m).
+Proof. exact upowmod_partial. Qed.
+Print Assumptions C17_upowmod_partial.
+
+Theorem C17_upowmod_refuted : ~ (forall x y m, wf x -> wf y -> wf m -> uval m <> 0 ->
+  exists r, upowmod x y m = Ok r /\ wf r /\ uval r = (uval x ^ uval y) mod uval m).
+Proof. exact upowmod_exact_refuted. Qed.
+Print Assumptions C17_upowmod_refuted.
